@@ -25,8 +25,8 @@ theorem eqDictLoop_cons (c : Cont) (t v : PyObj) (rest : List (PyObj × PyObj)) 
   | none => simp [eqDictLoop, isGroup, getItem, get, getCls, h]
   | some x =>
     cases x with
-    | group gs => simp [eqDictLoop, isGroup, getItem, get, getCls, h]
-    | str s => by_cases e : s = v.pyStr <;> simp [eqDictLoop, isGroup, getItem, get, getCls, h, e]
+    | group gs => simp [eqDictLoop, isGroup, h]
+    | str s => by_cases e : s = v.pyStr <;> simp [eqDictLoop, isGroup, getItem, get, h, e]
     | cls k => cases k <;> simp [eqDictLoop, isGroup, getItem, get, getCls, h]
 
 theorem eqDictLoop_true_iff (c : Cont) (d : List (PyObj × PyObj)) :
@@ -128,8 +128,7 @@ theorem eqDict_true_iff (c : Cont) (d : List (PyObj × PyObj)) :
   rw [eqDict_unfold, ← sameTags_iff, ← eqDictLoop_true_iff]
   by_cases h : tagSetsAgree c d = true
   · simp only [h, if_true, true_and]
-  · simp only [h, if_false, false_and]
-    simp
+  · simp [h]
 
 /-- why `container == dict` raises -/
 theorem eqDict_error (c : Cont) (d : List (PyObj × PyObj)) (k : Kind) (h : eqDict c d = .error k) :
